@@ -354,6 +354,69 @@ def step_heavy_sessions(tier, seed, ctx):
     return res
 
 
+AFTER_TIMED_POSITIONS = [
+    "rnbqkbnr/pppppppp/8/8/8/8/PPPPPPPP/RNBQKBNR w KQkq - 0 1",
+    "r1bqkbnr/pppp1ppp/2n5/4p3/4P3/5N2/PPPP1PPP/RNBQKB1R w KQkq - 2 3",
+    "8/5k2/pp6/2p3K1/2P5/1P6/P7/8 b - - 0 1",
+    "4k2r/6pp/8/8/8/8/PP6/R3K3 w Qk - 0 1",
+    "r4rk1/1pp1qppp/p1np1n2/2b1p1B1/2B1P1b1/P1NP1N2/1PP1QPPP/R4RK1 w - - 0 10",
+    "6k1/5ppp/8/8/8/8/5PPP/4R1K1 w - - 0 1",
+]
+
+
+def split_by_bestmove(lines):
+    """transcript -> list of (info lines, bestmove line) per answered go"""
+    out, cur = [], []
+    for ln in lines:
+        if ln.startswith("bestmove"):
+            out.append((cur, ln))
+            cur = []
+        elif ln.startswith("info"):
+            cur.append(ln)
+    return out
+
+
+def step_after_timed(tier, seed, ctx):
+    """C06 black-box: a search cut off by a REAL clock budget must leave nothing behind that cuts a later search short.  One
+    process: position P, go movetime T (T in 0/1/3 ms, or a clock under the reserve), then go depth d; a fresh process:
+    position P, go depth d.  The depth-limited search must complete all d iterations in both (one info line per depth,
+    the last one for depth d) and answer with a move."""
+    res = {"name": "blackbox-after-timed", "violations": [], "broken": [], "evaluations": 0, "distinct_nontrivial": 0, "samples": [], "distribution": {}, "spec_compared": 0}
+    exe, err = build_engine(ctx)
+    if exe is None:
+        res["broken"].append("real binary does not build from /repo: " + err)
+        return res
+    timed = ["go movetime 0", "go movetime 1", "go movetime 3", "go wtime 3000 btime 3000", "go wtime 5100 btime 5100 winc 2 binc 2"]
+    depths = [3] if tier == "quick" else [2, 3, 4]
+    n = 0
+    for pi, fen in enumerate(AFTER_TIMED_POSITIONS):
+        for d in depths:
+            tcmds = [timed[(pi + d + seed) % len(timed)]] if tier == "quick" else timed
+            fresh, rcf = run_engine(exe, ["position fen " + fen, "go depth %d" % d])
+            fr = split_by_bestmove(fresh)
+            res["evaluations"] += 1
+            if rcf != 0 or len(fr) != 1:
+                res["broken"].append("after-timed: fresh process did not answer `go depth %d` on %s" % (d, fen))
+                continue
+            want_infos = len(fr[0][0])
+            for tc in tcmds:
+                a, rca = run_engine(exe, ["position fen " + fen, tc, "go depth %d" % d])
+                ar = split_by_bestmove(a)
+                res["evaluations"] += 1
+                res["spec_compared"] += 1
+                n += 1
+                ok = rca == 0 and len(ar) == 2 and len(ar[1][0]) == want_infos and (not ar[1][0] or (" depth %d " % d) in ar[1][0][-1] + " ") and ar[1][1] != "bestmove 0000"
+                if not ok:
+                    res["violations"].append({"kind": "later-search-affected-by-interrupted-search", "script": ["position fen " + fen, tc, "go depth %d" % d],
+                                              "second_go_output": (ar[1][0] + [ar[1][1]]) if len(ar) == 2 else a[-6:], "fresh_process_output": fr[0][0] + [fr[0][1]], "exit": rca,
+                                              "note": "after a search cut off by its clock budget, a depth-limited search on the same engine must still complete every iteration"})
+                elif len(res["samples"]) < 2:
+                    res["samples"].append({"script": ["position fen " + fen, tc, "go depth %d" % d], "second_go_last_info": ar[1][0][-1] if ar[1][0] else None})
+    res["distinct_nontrivial"] = n
+    res["distribution"] = {"blackbox_after_timed": {"positions": len(AFTER_TIMED_POSITIONS), "depths": depths, "timed_then_depth_limited_pairs": n}}
+    return res
+
+
 EXPLOSIVE = [
     "8/PPPPPPPP/8/2k5/8/2K5/pppppppp/8 w - - 0 1",
     "r3k2r/p1ppqpb1/bn2pnp1/3PN3/1p2P3/2N2Q1p/PPPBBPPP/R3K2R w KQkq - 0 1",
